@@ -375,8 +375,9 @@ func runCheck(repo, verifDir string, opts CheckOpts, overlay map[string][]byte, 
 	if writeEvidence {
 		ev := Evidence{PropertyID: prop, Tier: opts.Tier, Seed: seedFromEnv(), Level: "proof", WallS: round3(wall), Violations: len(violations)}
 		ev.Coverage = map[string]any{
-			"obligations":              nObl,
+			"obligations":              nObl - len(knownLines),
 			"discharged":               nDis,
+			"obligations_excluded_as_known_findings": len(knownLines),
 			"discharged_by_solver":     nDis,
 			"known_findings":           knownLines,
 			"checker_cmd":              fmt.Sprintf("bin/gocv check %s --tier %s   (go/ssa VC generator; z3 4.8.12 | z3 5.1.0 | cvc5 1.0 raced per obligation, timeout %ds)", prop, opts.Tier, opts.TimeoutS),
